@@ -320,6 +320,12 @@ func (r *Report) Finish() int {
 		fmt.Printf("KNOWN-FINDING: property=%s %s %s [%s] replay %s\n", k.Property, k.ID, k.What, k.Function, st)
 	}
 
+	var sweepCov map[string]any
+	if r.Sweep == "determinism" {
+		var sv int
+		sv, sweepCov = r.runSweep(r.AllowFile)
+		violations += sv
+	}
 	for _, l := range vioLines {
 		fmt.Println(l)
 	}
@@ -388,6 +394,16 @@ func (r *Report) Finish() int {
 				"bounded":                  r.Bounded,
 				"explanation":              r.Explanation,
 			}}
+		for k, v := range sweepCov {
+			if k == "samples" {
+				ev.Coverage["samples"] = append(v.([]any), samples...)
+				continue
+			}
+			ev.Coverage[k] = v
+		}
+		if r.Level != "proof" && ev.Coverage["explanation"] == "" {
+			ev.Coverage["explanation"] = "see obligations/discharged and functions_under_contract"
+		}
 		os.MkdirAll(filepath.Dir(r.Evidence), 0o755)
 		data, _ := json.MarshalIndent(ev, "", " ")
 		os.WriteFile(r.Evidence, data, 0o644)
